@@ -82,8 +82,9 @@ def _transitive_reads(ci, prog, node, depth=0):
     return reads
 
 
-def check_class(ctx, prog, ci, label=None):
-    """-> number of memo sites examined"""
+def check_class(ctx, prog, ci, label=None, external_state=()):
+    """-> number of memo sites examined.  `external_state`: attributes that hold data owned by the caller (the frame of a
+    pandas accessor), which can change without any method of the class being involved"""
     label = label or ci.name
     n = 0
     methods = {name: fs[-1] for name, fs in ci.methods.items()}
@@ -91,6 +92,7 @@ def check_class(ctx, prog, ci, label=None):
     mutable_state = {a for name, w in writers.items() if name != "__init__" for a in w}
     external = _external_writes(prog, ci)
     mutable_state |= {a for _, a, _, _ in external}
+    mutable_state |= set(external_state)
     # (a) caching decorators
     for name, fi in methods.items():
         decs = [d for d in _decorator_names(fi.node) if d in CACHE_DECORATORS]
@@ -203,13 +205,13 @@ class _Sink:
         self.v.append(k.get("text") or a[2])
 
 
-def run_rule(ctx, classes=(), modules=(), what="mutable accessor objects"):
+def run_rule(ctx, classes=(), modules=(), what="mutable accessor objects", external_state=()):
     """Apply the memo rule to the given classes (ClassInfo) and module-level functions; verify the built-in example."""
     from .frontend import AnalysisError
     prog = ctx.prog
     n = 0
     for ci in classes:
-        n += check_class(ctx, prog, ci)
+        n += check_class(ctx, prog, ci, external_state=external_state)
     for m in modules:
         n += check_functions(ctx, prog, m, what)
     sink = _Sink()
@@ -220,4 +222,85 @@ def run_rule(ctx, classes=(), modules=(), what="mutable accessor objects"):
         raise AnalysisError("memoisation positive example failed: %s" % sorted(sink.v))
     ctx.holds("selftest:positive-example", None, "memo rule fires on the four stale caches of the built-in example; %d cache site(s) "
               "in %d class(es) / %d module(s) of the repository" % (n, len(list(classes)), len(list(modules))))
+    return n
+
+
+# ---------------------------------------------------------------------------------------------------------------------
+# keyed caches: a class-level dictionary filled by a method under a key must be keyed by everything the cached value is
+# computed from (every attribute of the object the method reads)
+
+def keyed_cache_sites(prog, ci):
+    """[(method FuncInfo, store statement, cache name, key expression with temporaries resolved, missing attributes)]"""
+    from .astutil import inline_single_defs
+    caches = set()
+    for st in ci.node.body:
+        if isinstance(st, ast.Assign) and len(st.targets) == 1 and isinstance(st.targets[0], ast.Name) and \
+                (isinstance(st.value, ast.Dict) or (isinstance(st.value, ast.Call) and call_name(st.value) in
+                                                    ("dict", "collections.OrderedDict", "OrderedDict", "weakref.WeakValueDictionary"))):
+            caches.add(st.targets[0].id)
+    out = []
+    if not caches:
+        return out
+
+    def is_cache(e):
+        return isinstance(e, ast.Attribute) and e.attr in caches and (
+            (isinstance(e.value, ast.Name) and e.value.id in (ci.name, "cls")) or
+            (isinstance(e.value, ast.Attribute) and e.value.attr == "__class__") or
+            (isinstance(e.value, ast.Call) and call_name(e.value) == "type") or is_self_attr(e))
+    for name, defs in ci.methods.items():
+        fi = defs[-1]
+        for st in walk_function(fi.node):
+            if not isinstance(st, ast.Assign):
+                continue
+            for t in st.targets:
+                if isinstance(t, ast.Subscript) and is_cache(t.value):
+                    key = inline_single_defs(fi.node, t.slice, depth=4)
+                    # attribute aliases: law = self._law ; law.E in the key stands for self._law
+                    alias = {}
+                    for s2 in walk_function(fi.node):
+                        if isinstance(s2, ast.Assign) and len(s2.targets) == 1 and isinstance(s2.targets[0], ast.Name) and \
+                                is_self_attr(s2.value):
+                            alias[s2.targets[0].id] = s2.value.attr
+                    key_attrs = {n.attr for n in ast.walk(key) if is_self_attr(n)} | \
+                        {alias[n.id] for n in ast.walk(key) if isinstance(n, ast.Name) and n.id in alias}
+                    written = set(_writes(fi))
+                    reads = set()
+                    for s2 in walk_function(fi.node):
+                        if any(is_cache(x) for x in ast.walk(s2)):
+                            continue                     # the cache bookkeeping itself
+                        reads |= _self_reads(s2)
+                    missing = sorted(reads - key_attrs - written)
+                    out.append((fi, st, t.value.attr, key, missing))
+    return out
+
+
+def check_keyed_caches(ctx, prog, classes):
+    """report keyed class-level caches whose key leaves out an attribute the cached value depends on; verifies a built-in
+    example on every run (the expected instance count on the repository is zero)"""
+    from .frontend import AnalysisError, Module, Program, set_parents
+    n = 0
+    for ci in classes:
+        for fi, st, cname, key, missing in keyed_cache_sites(prog, ci):
+            n += 1
+            if missing:
+                ctx.violated(fi, st, "%s.%s stores its result in the class-level cache %s under the key %s, which leaves out self.%s: "
+                             "an object that differs only in that attribute silently receives the value computed for another one"
+                             % (ci.name, fi.name, cname, norm_text(key)[:100], ", self.".join(missing)), text="cache key " + cname)
+            else:
+                ctx.holds(fi, st, "%s.%s: cache %s is keyed by every attribute the value is computed from" % (ci.name, fi.name, cname))
+    src = ("class T:\n    _cache = {}\n    def build(self):\n        law = self._law\n        key = (law.E, self._max)\n"
+           "        if key in T._cache:\n            self._tab = T._cache[key]\n            return\n"
+           "        self._tab = [i * self._max / self._bins for i in range(self._bins)]\n        T._cache[key] = self._tab\n")
+    tree = set_parents(ast.parse(src))
+    p = object.__new__(Program)
+    p.root, p.overrides, p._base = "", {}, None
+    p.modules = {"ex": Module("ex", "ex.py", src, tree, "0")}
+    p.modules["ex"].pysource = src
+    p.functions, p.classes, p.accessors, p._subclasses = {}, {}, {}, {}
+    p._index()
+    got = [(fi.name, m) for fi, st, c, k, m in keyed_cache_sites(p, p.classes["ex:T"])]
+    if got != [("build", ["_bins"])]:
+        raise AnalysisError("keyed-cache positive example failed: %s" % got)
+    ctx.holds("selftest:positive-example", None, "keyed-cache rule finds the missing bin count in the built-in example; %d keyed "
+              "cache(s) in the repository classes" % n)
     return n
